@@ -594,7 +594,7 @@ def search_identities(ctx, rng, n_per_class, viol):
                     ev += 1
                     bad = differs(np.asarray(a)[fin], np.asarray(b)[fin], scale, rtol)
                     if bad.any():
-                        i = int(np.argmax(bad))
+                        i = int(np.nanargmax(np.where(bad, np.abs(np.asarray(a, dtype=float)[fin] - np.asarray(b, dtype=float)[fin]), -1.0)))
                         viol.append({"key": key, "what": what, "case": {**case, "lag": float(r[fin][i]),
                                      "got": float(np.asarray(a)[fin][i]), "want": float(np.asarray(b)[fin][i])}})
                 if not fin.all():
@@ -727,8 +727,10 @@ def search_closed_forms(ctx, rng, n_per_class, viol):
                 ref = mp_reference(name, m)
                 L = m.len_rescaled
                 scale_lo = L
-                if name in TPL3 and m.len_low > 0:
-                    scale_lo = min(L, m.len_low / m.rescale)
+                if name in TPL3:
+                    # tplstable_cor treats |r / ell| <= 1e-8 as 0 for each of its two scales (documented hack; the cusped
+                    # true function differs there by up to 1e-2): stay outside the band of the *upper* scale
+                    scale_lo = (m.len_low + m.len_scale) / m.rescale
                 r = np.concatenate([[0.0, 1e-6 * scale_lo, 1e-3 * L, 0.05 * L, np.nextafter(L, 0), L, np.nextafter(L, 2 * L), 2 * L, 6 * L,
                                      20 * L, 60 * L], rng.uniform(0, 1, 5) * L, rng.uniform(1, 8, 4) * L,
                                     np.exp(rng.uniform(np.log(1e-5), np.log(1e2), 5)) * L])
@@ -740,11 +742,14 @@ def search_closed_forms(ctx, rng, n_per_class, viol):
                 rtol, atol = CF_TOL.get(name, (1e-12, 8 * EPS))
                 err = np.abs(got - want)
                 bad = ~(err <= rtol * np.abs(want) + atol)
-                w = float(np.max(err / (np.abs(want) + atol / max(rtol, 1e-300))))
+                w = float(np.max(err / (rtol * np.abs(want) + atol + 1e-320)))
                 worst[name] = max(worst.get(name, 0.0), w)
                 if bad.any():
                     i = int(np.argmax(err - rtol * np.abs(want)))
-                    viol.append({"key": f"closed-form:{name}", "what": "correlation differs from the documented formula (mpmath, 30 digits)",
+                    key = f"closed-form:{name}"
+                    if name == "JBessel" and got[i] == 0.0 and want[i] > 0.5:
+                        key = "closed-form:JBessel:underflow-small-h"
+                    viol.append({"key": key, "what": "correlation differs from the documented formula (mpmath, 30 digits)",
                                  "case": {"cls": name, "dim": dim, "kw": {**common, **opt}, "lag": float(r[i]), "h": float(r[i] / L),
                                           "got": float(got[i]), "want": float(want[i])}})
     finally:
@@ -754,12 +759,16 @@ def search_closed_forms(ctx, rng, n_per_class, viol):
 
 # (rtol, atol) of the closed-form comparison: what the scipy special functions behind each class deliver
 CF_TOL = {
-    "Gaussian": (1e-12, 0.0), "Exponential": (1e-13, 0.0), "Stable": (1e-11, 0.0), "Rational": (1e-11, 0.0),
+    "Gaussian": (1e-12, 0.0), "Exponential": (1e-13, 0.0), "Stable": (1e-12, 0.0), "Rational": (1e-12, 0.0),
     "Cubic": (1e-12, 64 * EPS), "Linear": (1e-13, 4 * EPS), "Circular": (1e-12, 16 * EPS), "Spherical": (1e-12, 16 * EPS),
-    "TPLSimple": (1e-11, 0.0),
-    "Matern": (1e-10, 1e-300), "Integral": (1e-9, 1e-14), "HyperSpherical": (1e-11, 64 * EPS), "SuperSpherical": (1e-10, 256 * EPS),
-    "JBessel": (1e-10, 1e-13), "TPLGaussian": (1e-9, 1e-13), "TPLExponential": (1e-9, 1e-13), "TPLStable": (1e-9, 1e-13),
+    "TPLSimple": (1e-12, 64 * EPS),
+    # scipy kv / expn / gammaincc / hyp2f1 / jv; Integral: first-order asymptotic branch of exp_int for x > 30 (|err| < e^-30)
+    "Matern": (1e-12, 1e-300), "Integral": (1e-9, 1e-13), "HyperSpherical": (1e-11, 256 * EPS), "SuperSpherical": (1e-10, 256 * EPS),
+    "JBessel": (1e-10, 1e-13), "TPLGaussian": (1e-11, 1e-13), "TPLExponential": (1e-11, 1e-13), "TPLStable": (1e-9, 1e-13),
 }
+
+
+REFUSED = {}
 
 
 def search_integral_scale(ctx, rng, n_per_class, viol):
@@ -800,6 +809,9 @@ def search_integral_scale(ctx, rng, n_per_class, viol):
                     try:
                         m2 = make(name, dim, common, opt, integral_scale=want)
                     except ValueError as e:
+                        if name in TPL3 and opt.get("len_low", 0.0) > 0:
+                            REFUSED[name] = REFUSED.get(name, 0) + 1      # loud, documented refusal: len_low is kept fixed
+                            continue
                         viol.append({"key": f"integral-scale-setter:{name}", "what": f"integral_scale could not be prescribed: {e}",
                                      "case": {**case, "prescribed": want}})
                         continue
@@ -831,19 +843,24 @@ def search_percentile(ctx, rng, n_per_class, viol):
                         x = float(m.percentile_scale(per))
                         g = float(m.variogram(np.array([x]))[0])
                     except Exception as e:   # noqa
-                        viol.append({"key": f"percentile:{name}", "what": f"percentile_scale raised {type(e).__name__}",
+                        viol.append({"key": f"percentile-scale:raised:{name}", "what": f"percentile_scale raised {type(e).__name__}",
                                      "case": {"cls": name, "dim": dim, "kw": {**common, **opt}, "per": per}})
                         continue
                 ev += 1
+                case = {"cls": name, "dim": dim, "kw": {**common, **opt}, "per": per, "scale": x, "variogram": g,
+                        "want": m.nugget + per * m.var}
                 if not abs(g - m.nugget - per * m.var) <= 1e-6 * m.var + 64 * EPS * (m.var + m.nugget):
-                    viol.append({"key": f"percentile:{name}", "what": "variogram(percentile_scale(per)) != nugget + per * var",
-                                 "case": {"cls": name, "dim": dim, "kw": {**common, **opt}, "per": per, "scale": x,
-                                          "variogram": g, "want": m.nugget + per * m.var}})
+                    viol.append({"key": "percentile-scale:unconverged-root", "case": case,
+                                 "what": "variogram(percentile_scale(per)) != nugget + per * var (scipy root did not converge; "
+                                         "its `success` flag is ignored)"})
+                elif x < 0:
+                    viol.append({"key": "percentile-scale:negative-root", "case": case,
+                                 "what": "percentile_scale(per) is a negative lag (mirror root of the even function)"})
             for bad_per in (0.0, 1.0, -0.1, 1.5):
                 ev += 1
                 try:
                     m.percentile_scale(bad_per)
-                    viol.append({"key": f"percentile-range:{name}", "what": "percentile outside (0, 1) accepted",
+                    viol.append({"key": f"percentile-scale:range:{name}", "what": "percentile outside (0, 1) accepted",
                                  "case": {"cls": name, "per": bad_per}})
                 except ValueError:
                     pass
@@ -874,6 +891,7 @@ def search(ctx, deep=False):
             "summary": "identities, nugget/axis/yadrenko/spatial variants and user routes on the real API for all 17 classes over their "
                        "bounds; closed forms vs mpmath (30 digits); integral_scale vs exact integral (closed form / mpmath quad) and "
                        "setter; percentile_scale substituted back.  violation counts per key: " + str(seen)
+                       + "; integral_scale= refused with ValueError for TPL models with len_low > 0: " + str(REFUSED)
                        + "; worst closed-form error (units of tolerance): "
                        + str({k: round(v, 3) for k, v in worst.items()})}
 
